@@ -64,20 +64,20 @@ Section Bytes.
   Qed.
 
   Theorem request_theorem :
-    wf_request (headers_of items) = true -> k_lists true (headers_of items) = false ->
+    wf_request (headers_of items) = true ->
     exists v, spec_request (headers_of items) = Some v /\
               analyse_request (connection_bytes true ctl sid fr frags trail) = POk v.
   Proof.
-    intros Hwf Hk. destruct (request_fields _ Hwf Hk) as (v & Hs & Hv).
+    intros Hwf. destruct (request_fields _ Hwf) as (v & Hs & Hv).
     exists v. split; [exact Hs|]. unfold analyse_request. now rewrite parse_request_bytes, decode_block.
   Qed.
 
   Theorem response_theorem :
-    wf_response (headers_of items) = true -> k_lists false (headers_of items) = false ->
+    wf_response (headers_of items) = true ->
     exists w, spec_response (headers_of items) = Some w /\
               analyse_response (connection_bytes false ctl sid fr frags trail) = POk w.
   Proof.
-    intros Hwf Hk. destruct (response_fields _ Hwf Hk) as (w & Hs & Hw).
+    intros Hwf. destruct (response_fields _ Hwf) as (w & Hs & Hw).
     exists w. split; [exact Hs|]. unfold analyse_response. now rewrite parse_response_bytes, decode_block.
   Qed.
 End Bytes.
@@ -87,7 +87,7 @@ Corollary request_statement :
     forallb (ctl_ok sid) ctl = true -> forallb (trail_ok sid) trail = true ->
     framing_ok fr frags = true -> 0 < sid /\ sid < 2 ^ 31 ->
     concat frags = hpack_encode items -> items_ok items = true -> k_static15 items = false ->
-    wf_request (headers_of items) = true -> k_lists true (headers_of items) = false ->
+    wf_request (headers_of items) = true ->
     exists v, spec_request (headers_of items) = Some v /\
               analyse_request (connection_bytes true ctl sid fr frags trail) = POk v.
 Proof. intros. eapply request_theorem; eassumption. Qed.
@@ -97,7 +97,7 @@ Corollary response_statement :
     forallb (ctl_ok sid) ctl = true -> forallb (trail_ok sid) trail = true ->
     framing_ok fr frags = true -> 0 < sid /\ sid < 2 ^ 31 ->
     concat frags = hpack_encode items -> items_ok items = true -> k_static15 items = false ->
-    wf_response (headers_of items) = true -> k_lists false (headers_of items) = false ->
+    wf_response (headers_of items) = true ->
     exists w, spec_response (headers_of items) = Some w /\
               analyse_response (connection_bytes false ctl sid fr frags trail) = POk w.
 Proof. intros. eapply response_theorem; eassumption. Qed.
@@ -108,11 +108,7 @@ Arguments hx _%bs.
 Definition plain_framing : framing :=
   {| fr_pad := None; fr_prio := None; fr_extra_h := 0; fr_extra_c := 0; fr_rsv := false |}.
 
-(* K1 (k_lists): GET / with user-agent probe/1.0 as a single plain HEADERS frame *)
-Definition w_lists_items : list item :=
-  [IIndexed 2 (bs ":method") (bs "GET"); IIndexed 4 (bs ":path") (bs "/");
-   ILitIdx MWithout 58 (bs "user-agent") (bs "probe/1.0") false].
-(* K2 (k_static15): accept-charset: utf-8 with the name taken from static index 15 *)
+(* K1 (k_static15): accept-charset: utf-8 with the name taken from static index 15 *)
 Definition w_15_items : list item :=
   [IIndexed 2 (bs ":method") (bs "GET"); IIndexed 4 (bs ":path") (bs "/");
    ILitIdx MWithout 15 (bs "accept-charset") (bs "utf-8") false].
@@ -120,20 +116,9 @@ Definition w_15_items : list item :=
 Definition one_frame_request (items : list item) : bytes :=
   connection_bytes true [] 1 plain_framing [hpack_encode items] [].
 
-Lemma Known_lists_refuted :
-  exists items,
-    items_ok items = true /\ wf_request (headers_of items) = true /\ k_static15 items = false /\
-    k_lists true (headers_of items) = true /\
-    exists v, spec_request (headers_of items) = Some v /\ analyse_request (one_frame_request items) <> POk v.
-Proof.
-  exists w_lists_items. repeat split; try (vm_compute; reflexivity).
-  eexists. split; [vm_compute; reflexivity|]. vm_compute. discriminate.
-Qed.
-
 Lemma Known_static15_refuted :
   exists items,
-    items_ok items = true /\ wf_request (headers_of items) = true /\ k_lists true (headers_of items) = false /\
-    k_static15 items = true /\
+    items_ok items = true /\ wf_request (headers_of items) = true /\ k_static15 items = true /\
     exists v, spec_request (headers_of items) = Some v /\ analyse_request (one_frame_request items) <> POk v.
 Proof.
   exists w_15_items. repeat split; try (vm_compute; reflexivity).
